@@ -2204,7 +2204,8 @@ impl<'store> FindTextSelectionsIter<'store> {
             TextSelectionOperator::Before { limit, .. } => {
                 //reference comes before found items, so find items that begin after the reference ends:
                 let end = if let Some(limit) = limit {
-                    std::cmp::min(refend + limit + 1, textend)
+                    //(the limit may be as large as the type allows)
+                    std::cmp::min(refend.saturating_add(limit).saturating_add(1), textend)
                 } else {
                     textend
                 };
